@@ -57,6 +57,8 @@ type HistSrc struct {
 	// stub only: probability (per mille) of Write / GetLine failing.
 	FailWrite int `json:"fail_write,omitempty"`
 	FailGet   int `json:"fail_get,omitempty"`
+	// file only: the directory of the file is removed once the entries are in it (appends cannot open the file any more)
+	Unwritable bool `json:"unwritable,omitempty"`
 }
 
 // Cand is one completion candidate.
